@@ -1,6 +1,9 @@
 package harness
 
 import (
+	"crypto"
+	"errors"
+	"io"
 	"time"
 	_ "time/tzdata" // named zones must not depend on the host
 
@@ -21,6 +24,16 @@ type KeyCfg struct {
 	Chain bool `json:"chain,omitempty"`
 	// Bare: the custom store's RSA key is assembled from bare components, without precomputed CRT values.
 	Bare bool `json:"bare,omitempty"`
+	// FailSign: the key cannot sign (an HSM / KMS that is unavailable): crypto.Signer.Sign returns an error for
+	// setter and TLS-field keys, GetKeyPair returns an error for the custom store.
+	FailSign bool `json:"failSign,omitempty"`
+}
+
+// FailingSigner has the public key of a real key and refuses to sign.
+type FailingSigner struct{ crypto.Signer }
+
+func (f FailingSigner) Sign(io.Reader, []byte, crypto.SignerOpts) ([]byte, error) {
+	return nil, errors.New("signing key unavailable")
 }
 
 // ChainIssuer is the second certificate of chain stores (any other certificate will do: nothing verifies the chain).
@@ -107,12 +120,19 @@ func keyStoreField(k KeyCfg) dsig.X509KeyStore {
 		if k.Chain {
 			st.Certificate = append(st.Certificate, ChainIssuer.DER())
 		}
+		if k.FailSign {
+			st.PrivateKey = FailingSigner{K(k.Field.Key).Signer}
+		}
 		return st
 	case "custom":
 		if k.Bare {
 			return NewBareCustomStore(k.Field)
 		}
-		return NewCustomStore(k.Field)
+		cs := NewCustomStore(k.Field)
+		if k.FailSign {
+			cs.Err = errors.New("key store unavailable")
+		}
+		return cs
 	}
 	return nil
 }
@@ -154,7 +174,11 @@ func (c SPConfig) Build() *saml2.SAMLServiceProvider {
 	}
 	if c.Enc.Mode == "setter" || c.Enc.Mode == "both" {
 		k := K(c.Enc.Setter.Key)
-		if err := sp.SetSPKeyStore(&saml2.KeyStore{Signer: k.Signer, Cert: c.Enc.Setter.DER()}); err != nil {
+		var signer crypto.Signer = k.Signer
+		if c.Enc.FailSign {
+			signer = FailingSigner{k.Signer}
+		}
+		if err := sp.SetSPKeyStore(&saml2.KeyStore{Signer: signer, Cert: c.Enc.Setter.DER()}); err != nil {
 			panic(err)
 		}
 	}
@@ -163,7 +187,11 @@ func (c SPConfig) Build() *saml2.SAMLServiceProvider {
 	}
 	if c.Sig.Mode == "setter" || c.Sig.Mode == "both" {
 		k := K(c.Sig.Setter.Key)
-		if err := sp.SetSPSigningKeyStore(&saml2.KeyStore{Signer: k.Signer, Cert: c.Sig.Setter.DER()}); err != nil {
+		var signer crypto.Signer = k.Signer
+		if c.Sig.FailSign {
+			signer = FailingSigner{k.Signer}
+		}
+		if err := sp.SetSPSigningKeyStore(&saml2.KeyStore{Signer: signer, Cert: c.Sig.Setter.DER()}); err != nil {
 			panic(err)
 		}
 	}
